@@ -19,8 +19,8 @@ from . import facts as F
 
 ALL = (1 << 256) - 1
 TOP = ("top", None)
-GE_CAP = 3
-CONST_CAP = 2
+GE_CAP = 4
+CONST_CAP = 3
 CONFIG_CAP = 400
 DEBUG_BLOWUP = False
 
@@ -356,11 +356,33 @@ class Engine:
         for i, old in tagged_before:
             now = self.read(env, l, path[:i])
             if now != old and now[0] == "e":
-                state = self.auto.event(state, ("narrow", old[3], now), where)
+                tag = old[3]
+                if "@" in tag:
+                    # a memoised look-ahead: later look-aheads at the same offset see the refined value
+                    k = int(tag.split("@")[1])
+                    if -(k + 1) in env:
+                        env[-(k + 1)] = now
+                    tag = tag.split("@")[0]
+                state = self.auto.event(state, ("narrow", tag, now), where)
         return env, state
 
     # ---- operands ------------------------------------------------------------------------
     def const(self, c):
+        if "enum" in c:
+            payload = None
+            fs = c.get("fields") or []
+            if fs:
+                f0 = fs[0]
+                if f0 is None:
+                    payload = TOP
+                elif f0["ty"] == "u8":
+                    payload = ("byte", 1 << (f0["int"] & 255))
+                elif f0["ty"] == "bool":
+                    payload = ("b", bool(f0["int"]), (), ())
+                else:
+                    payload = ("i", f0["int"])
+            av = enum(c["enum"], [(c["variant"], payload)], None) if c["enum"] in SHAPE_ADTS else TOP
+            return ("cell", av) if c.get("isref") else av
         if "int" in c:
             if c["ty"] == "bool":
                 return ("b", bool(c["int"]), (), ())
@@ -664,6 +686,13 @@ class Engine:
                 target = e["to"]
         if cdef is None:
             cdef = c.get("res") or c.get("def") or ""
+        if e is not None and "fn_item" in e:
+            # a fn item called through FnOnce::call_once(f, (args,)): behave like a direct call of the item
+            if e.get("via") != "fn_item":
+                cdef = e["fn_item"]
+            tup = args[1] if len(args) > 1 else TOP
+            args = list(tup[1]) if tup[0] == "t" else [TOP]
+            t = dict(t, args=[])
         n = norm(cdef)
         # 1. primitives and models
         h = PRIMS.get(n)
@@ -680,6 +709,7 @@ class Engine:
                 fargs = self.bind_args(cfn, e, env, args)
                 res = self.summary(target, state, fargs)
                 env2 = self.havoc(env, args)
+                env2 = {l: v for l, v in env2.items() if l >= 0}
                 return [(r, env2, s) for (r, s) in res]
         # 3. opaque closure parameter (generic F: FnOnce) -> oracle
         if self.closure_oracle is not None and "call_once" in n:
@@ -750,10 +780,15 @@ class Engine:
         skey = self.auto.key
         while work:
             bb, env, st = work.pop()
-            li = live_in[bb]
-            env = {l: v for l, v in env.items() if l in li or l in addr}
+            start_at = 0
+            if isinstance(bb, tuple):
+                _, bb, start_at = bb
+                li = None
+            else:
+                li = live_in[bb]
+                env = {l: v for l, v in env.items() if l < 0 or l in li or l in addr}
             fe = (tuple(sorted(env.items(), key=lambda kv: kv[0])), skey(st))
-            sb = seen.setdefault(bb, set())
+            sb = seen.setdefault((bb, start_at), set())
             if fe in sb:
                 continue
             sb.add(fe)
@@ -768,11 +803,29 @@ class Engine:
                         print("   ", {l: show(v) for l, v in cfg_[0] if v[0] != "top"}, cfg_[1], file=sys.stderr)
                 raise Imprecise(inst_key)
             b = fn.blocks[bb]
-            for s in b["stmts"]:
+            forked = False
+            for si, s in enumerate(b["stmts"]):
+                if si < start_at:
+                    continue
                 k = s["k"]
                 if k == "assign":
                     lhs = s["lhs"]
-                    av = self.rvalue(fn, env, s["rv"], lhs["l"])
+                    rv = s["rv"]
+                    if rv["k"] == "cast" and rv["ck"] == "IntToInt" and rv["from"] == "bool":
+                        a = self.operand(env, rv["a"])
+                        if a[0] == "b" and a[1] is None and (a[2] or a[3]):
+                            # the numeric value of an undecided test: decide it (two configurations)
+                            pl = self.operand_place(env, rv["a"])
+                            for truth in (True, False):
+                                r2 = self.apply_refs(env, st, a[2] if truth else a[3], (inst_key, fn, bb))
+                                if r2 is None or pl is None:
+                                    continue
+                                env2 = self.write(r2[0], pl[0], pl[1], ("b", truth, (), ()))
+                                work.append((("mid", bb, si), env2, r2[1]))
+                            if pl is not None:
+                                forked = True
+                                break
+                    av = self.rvalue(fn, env, rv, lhs["l"])
                     r = self.resolve(env, lhs)
                     if r is not None:
                         env = self.write(env, r[0], r[1], av)
@@ -784,6 +837,8 @@ class Engine:
                     r = self.resolve(env, s["lhs"])
                     if r is not None:
                         env = self.write(env, r[0], r[1], TOP)
+            if forked:
+                continue
             t = b["term"]
             k = t["k"]
             if k == "goto":
@@ -935,8 +990,27 @@ def _prim_event(name):
 
 
 def _prim_look(eng, fn, bb, t, env, state, args, where, n):
-    state = eng.auto.event(state, ("prim", "look", tuple(args)), where)
+    off = args[1] if len(args) > 1 else ("i", 0)
+    state = eng.auto.event(state, ("prim", "look", (args[0] if args else TOP, off)), where)
+    if off[0] == "i" and 0 <= off[1] < 64:
+        key = -(off[1] + 1)
+        if key in env:
+            # same offset as the previous look-ahead, nothing consumed in between: same answer
+            state = eng.auto.event(state, ("narrow", "look", env[key]), where)
+            return [(env[key], env, state)]
+        av = enum(OPTION, [("None", None), ("Some", ("byte", ALL))], "look@%d" % off[1])
+        # only the most recent look-ahead is memoised (enough for the re-look idiom, keeps the state small)
+        env = {l: v for l, v in env.items() if l >= 0}
+        env[key] = av
+        return [(av, env, state)]
+    env = {l: v for l, v in env.items() if l >= 0}
     return [(opt_look(), env, state)]
+
+
+def _prim_advance(eng, fn, bb, t, env, state, args, where, n):
+    state = eng.auto.event(state, ("prim", "advance", tuple(args)), where)
+    env = {l: v for l, v in env.items() if l >= 0}
+    return [(TOP, env, state)]
 
 
 def _prim_io_error(eng, fn, bb, t, env, state, args, where, n):
@@ -965,9 +1039,9 @@ PRIMS = {
     DR + "request_more": _prim_event("request_more"),
     DR + "is_at_end": _prim_bool("is_at_end"),
     DR + "is_complete": _prim_bool("is_complete"),
-    DR + "advance": _prim_event("advance"),
-    DR + "advance_with_buf": _prim_event("advance"),
-    DR + "advance_unchecked": _prim_event("advance"),
+    DR + "advance": _prim_advance,
+    DR + "advance_with_buf": _prim_advance,
+    DR + "advance_unchecked": _prim_advance,
     DR + "set_mark": _prim_event("set_mark"),
     DR + "set_mark_to_position": _prim_event("set_mark"),
     DR + "mark": _prim_event("mark"),
